@@ -1,1 +1,288 @@
-/- C16 — property theorems (to be written) -/
+/-
+  C16 — traces are well-formed: one sorted, correctly addressed row per traced event.
+  Property theorems only; helper lemmas live in FtProofs/Lemmas/Trace*.lean.
+-/
+import FtProofs.Lemmas.TraceMachine
+import FtProofs.Lemmas.TraceNest
+import FtProofs.Lemmas.TraceKernel
+import FtProofs.Lemmas.TraceAddr
+import FtProofs.C04
+namespace Ft
+open Ft.C16
+
+/-! ### the Metrics class: buffering is unobservable, memory = file, one row per traced access -/
+
+/-- The lines of a trace (written + still buffered) do not depend on `num_cached_uses`, for every
+    sequence of calls that does not restart / re-declare a trace that already has lines. -/
+theorem trace_flush_independent (evs : List Ev) (n m : Nat) (k : Key)
+    (hr : (run (init n) evs).restarted = false) :
+    C16.content (run (init n) evs) k = C16.content (run (init m) evs) k :=
+  ((Sim.init n m).run_sim evs).cont hr k
+
+/-- … and once `endCollect` has run, the files themselves coincide. -/
+theorem trace_files_flush_independent (evs : List Ev) (n m : Nat) (k : Key)
+    (hr : (run (init n) evs).restarted = false)
+    (hd : k ∈ (run (init n) evs).declared) (hf : fileOn (run (init n) evs) k = true) :
+    (run (init n) (evs ++ [.endCollect])).disk k = (run (init m) (evs ++ [.endCollect])).disk k := by
+  have hs := (Sim.init n m).run_sim evs
+  have hd' : k ∈ (run (init m) evs).declared := hs.declared ▸ hd
+  have hf' : fileOn (run (init m) evs) k = true := by
+    have := hs.slots k
+    unfold fileOn at hf ⊢
+    cases h1 : (run (init n) evs).slots k <;> cases h2 : (run (init m) evs).slots k <;>
+      simp_all [SlotSim]
+  simp only [run, List.foldl_append, List.foldl_cons, List.foldl_nil, step]
+  have e1 := endCollect_disk (run (init n) evs) k hd hf
+  have e2 := endCollect_disk (run (init m) evs) k hd' hf'
+  simp only [run] at e1 e2
+  rw [e1, e2]
+  exact congrArg some (hs.cont hr k)
+
+/-- A trace kept both as a file and as a consumable trace delivers the same lines in memory
+    (consumed so far + still held) as in the file (written + buffered). -/
+theorem trace_mem_eq_file (evs : List Ev) (n : Nat) (k : Key)
+    (hr : (run (init n) evs).restarted = false)
+    (hf : fileOn (run (init n) evs) k = true) (hm : memOn (run (init n) evs) k = true) :
+    C16.content (run (init n) evs) k = memAll (run (init n) evs) k :=
+  ((MF.init n).run_mf evs) hr k hf hm
+
+/-- `addUse` adds exactly one row — `iteration[:i+1] + point[:i] + [coord] + [pos]` — to the trace
+    of its (rank, type) when that trace is declared and the rank is known, and nothing to any other
+    trace. -/
+theorem trace_use_one_row (s : MState) (r : String) (c pos : Int) (ty : String) (ovr : Option (List Nat))
+    (k' : Key) :
+    C16.content (addUse s r c pos ty ovr) k' =
+      C16.content s k' ++ (if k' = (r, ty) ∧ fileOn s k' then (useLine s r c pos ovr).toList else []) ∧
+    memAll (addUse s r c pos ty ovr) k' =
+      memAll s k' ++ (if k' = (r, ty) ∧ memOn s k' then (useLine s r c pos ovr).toList else []) :=
+  ⟨(addUse_lines s r c pos ty ovr k').1, (addUse_lines s r c pos ty ovr k').2.1⟩
+
+/-- `_startTrace` (called by `registerRank` for every declared trace of the rank and of the ranks
+    matched to it) on a trace that has no lines yet puts exactly the header
+    `r_pos … , r …, fiber_pos` of the loop order down to the trace's level there.
+    `_partial`: one call; that a trace of a regular run is started exactly once before its first row
+    (so that the header is the first line of the file) is checked on every case (`fileShapeOK` on the
+    implementation's files, equality with the model's files) but not proved as a run invariant. -/
+theorem trace_header_line_partial (s : MState) (k : Key) (x : Slot) (i : Nat)
+    (hs : s.slots k = some x) (hl : levelOf s k.1 = some i)
+    (hc : C16.content s k = []) (hm : memAll s k = []) :
+    C16.content (startTrace s k) k = (if x.file.isSome then [headerOf (s.loopOrder.take (i + 1))] else []) ∧
+    memAll (startTrace s k) k = (if x.mem.isSome then [headerOf (s.loopOrder.take (i + 1))] else []) :=
+  startTrace_header s k x i hs hl hc hm
+
+/-- `incIter`, `endIter`, `matchRanks`, `consumeTrace` and `endCollect` add no line to any trace:
+    together with `trace_use_one_row` — rows come from `addUse` only, one per call, in call order. -/
+theorem trace_other_calls_no_rows (s : MState) (e : Ev) (k : Key)
+    (he : match e with | .inc _ => True | .endI _ => True | .matchR _ _ => True | .consume _ _ => True
+                       | .endCollect => True | _ => False) :
+    C16.content (step s e) k = C16.content s k ∧ memAll (step s e) k = memAll s k :=
+  step_keeps_lines s e k he
+
+-- non-vacuity: a run that flushes at 2 but not at 1000, same content
+example :
+    let evs : List Ev := [.trace "K" "iter" false, .trace "K" "iter" true, .reg "K",
+      .use "K" 4 0 "iter" none, .inc "K", .use "K" 7 1 "iter" none, .inc "K", .endI "K"]
+    (run (init 2) evs).restarted = false ∧
+    (run (init 2) evs).disk ("K", "iter") ≠ (run (init 1000) evs).disk ("K", "iter") ∧
+    C16.content (run (init 2) evs) ("K", "iter") =
+      [.hdr ["K_pos", "K", "fiber_pos"], .dat [0, 4, 0], .dat [1, 7, 1]] ∧
+    fileOn (run (init 2) evs) ("K", "iter") = true ∧ memOn (run (init 2) evs) ("K", "iter") = true := by
+  decide
+
+/-! ### loop nests: the odometer keeps the rows sorted -/
+
+/-- In a loop nest that is well-nested for key `k` (the body of every enclosing loop runs at most
+    once per counter value, the level's own stamps of `k` are non-decreasing) the iteration stamps of
+    the rows of `k` are lexicographically non-decreasing — pairwise, hence also consecutively
+    (`chainB lexLe`, the clause `fileShapeOK` evaluates on the implementation's files). -/
+theorem trace_stamps_sorted (tr : Key → Bool) (k : Key) (here d : Nat) (n : Nest d)
+    (h : wn k false here d n = true) :
+    ((rowsOf tr d n k).map (·.stamp)).Pairwise (fun a b => lexLe a b = true) ∧
+    chainB lexLe ((rowsOf tr d n k).map (·.stamp)) = true := by
+  have := (wn_sorted tr k false here d n [] [] h).2
+  rw [← rowsOf_stamps] at this
+  have hp : ((rowsOf tr d n k).map (·.stamp)).Pairwise (fun a b => lexLe a b = true) :=
+    this.imp (fun hab => by simpa [stampR] using hab)
+  exact ⟨hp, chainB_of_pairwise lexLe _ hp⟩
+
+/-- … and strictly increasing when the level's own stamps are (plain iteration traces). -/
+theorem trace_iter_stamps_strict (tr : Key → Bool) (k : Key) (here d : Nat) (n : Nest d)
+    (h : wn k true here d n = true) :
+    ((rowsOf tr d n k).map (·.stamp)).Pairwise (fun a b => lexLt a b = true) ∧
+    chainB lexLt ((rowsOf tr d n k).map (·.stamp)) = true := by
+  have := (wn_sorted tr k true here d n [] [] h).2
+  rw [← rowsOf_stamps] at this
+  have hp : ((rowsOf tr d n k).map (·.stamp)).Pairwise (fun a b => lexLt a b = true) :=
+    this.imp (fun hab => by simpa [stampR] using hab)
+  exact ⟨hp, chainB_of_pairwise lexLt _ hp⟩
+
+-- non-vacuity: a two-level nest (second execution of the inner loop restarts its counter)
+example :
+    let inner (c : Int) : Nest 1 := ("K", [.use "K" "iter" c 0, .sub PUnit.unit, .inc, .use "K" "iter" (c + 1) 1, .sub PUnit.unit, .inc])
+    let n : Nest 2 := ("M", [.use "M" "iter" 0 0, .sub (inner 5), .inc, .use "M" "iter" 3 1, .sub (inner 7), .inc])
+    wn ("K", "iter") true 1 2 n = true ∧
+    (rowsOf (fun _ => true) 2 n ("K", "iter")).map (·.stamp) = [[0, 0], [0, 1], [1, 0], [1, 1]] := by
+  decide
+
+/-! ### loop nests over operand trees: what the iterators emit is well-nested -/
+
+/-- For every loop nest (any depth; per level a source fiber / `a & b` / leader-follower / projection,
+    optionally under `z <<`, inserting and move phase included), all operand trees, every set of
+    declared traces: the calls the iterators make are well-nested for every key of the `i`-th
+    level, provided no other level writes traces under the same rank name. -/
+theorem trace_kernel_wellnested (tr : Key → Bool) (dflt : Int) (levels : List Level) (env : Env)
+    (i : Nat) (lv : Level) (k : Key) (hi : levels[i]? = some lv) (hk : k.1 ∈ levelNames lv)
+    (hd : ∀ (j : Nat) (lv' : Level), levels[j]? = some lv' → j ≠ i → k.1 ∉ levelNames lv') :
+    wn k (k.2 == "iter") i levels.length (interp tr dflt levels.length levels env).2 = true :=
+  interp_wn tr dflt k levels i lv env hi hk hd
+
+/-- Hence the rows of every trace of such a nest carry lexicographically non-decreasing iteration
+    stamps, strictly increasing ones for `iter` traces — source-side and destination-side traces of
+    a populate alike (the "stamp-ordered" half of the relaxed clause for inserting populates). -/
+theorem trace_kernel_stamps_sorted (tr : Key → Bool) (dflt : Int) (levels : List Level) (env : Env)
+    (i : Nat) (lv : Level) (k : Key) (hi : levels[i]? = some lv) (hk : k.1 ∈ levelNames lv)
+    (hd : ∀ (j : Nat) (lv' : Level), levels[j]? = some lv' → j ≠ i → k.1 ∉ levelNames lv') :
+    ((rowsOf tr levels.length (interp tr dflt levels.length levels env).2 k).map (·.stamp)).Pairwise
+        (fun a b => lexLe a b = true) ∧
+    (k.2 = "iter" →
+      ((rowsOf tr levels.length (interp tr dflt levels.length levels env).2 k).map (·.stamp)).Pairwise
+        (fun a b => lexLt a b = true)) := by
+  have h := trace_kernel_wellnested tr dflt levels env i lv k hi hk hd
+  by_cases hit : k.2 = "iter"
+  · have hb : (k.2 == "iter") = true := by simpa using hit
+    rw [hb] at h
+    have hs := (trace_iter_stamps_strict tr k i _ _ h).1
+    exact ⟨hs.imp (fun hab => lexLe_of_lexLt _ _ hab), fun _ => hs⟩
+  · have hb : (k.2 == "iter") = false := by simpa using hit
+    rw [hb] at h
+    exact ⟨(trace_stamps_sorted tr k i _ _ h).1, fun e => absurd e hit⟩
+
+/-! ### addresses: coordinates and positions name the element touched -/
+
+/-- `iterRange` over a concrete fiber: every `iter` row carries the coordinate of a stored, non-empty
+    element and its index in the fiber (storage position). -/
+theorem trace_iter_addresses {σ S π : Type} (rank : String) (emptyP : π → Bool) (body : S → Int → π → S × σ)
+    (f : Fib Int π) (s : S) (r ty : String) (c pos : Int)
+    (h : Item.use r ty c pos ∈ (iterItems rank emptyP body s 0 f).2) :
+    r = rank ∧ ty = "iter" ∧ ∃ (i : Nat) (p : π), pos = (i : Int) ∧ f[i]? = some (c, p) ∧ emptyP p = false := by
+  obtain ⟨h1, h2, i, p, e1, e2, e3⟩ := iterItems_addr rank emptyP body f s 0 r ty c pos h
+  exact ⟨h1, h2, i, p, by simpa using e1, e2, e3⟩
+
+/-- `iterRange` over a lazy fiber (`a & b`, `z << …`, a projection): every `iter` row carries a yielded
+    coordinate and its index in the yielded sequence. -/
+theorem trace_lazy_iter_addresses {σ S β : Type} (rank : String) (body : S → Int → β → S × σ)
+    (steps : List (Step β)) (s : S) (c pos : Int)
+    (hk : ∀ i, Step.emit i ∈ steps → itemKey i ≠ some (rank, "iter"))
+    (h : Item.use rank "iter" c pos ∈ (lazyItems rank body s 0 steps).2) :
+    ∃ (i : Nat) (p : β), pos = (i : Int) ∧ (yieldsOf steps)[i]? = some (c, p) := by
+  obtain ⟨i, p, e1, e2⟩ := lazyItems_addr rank body steps s 0 c pos hk h
+  exact ⟨i, p, by simpa using e1, e2⟩
+
+/-- The sequences the lazy sources hand to their consumer (the sequence `trace_lazy_iter_addresses`
+    and `trace_populate_src_addresses_partial` index into), declaratively: `a & b` on sorted operands
+    yields C04's truth-table intersection; leader-follower yields every presented leader element;
+    a projection yields the shifted coordinates inside the interval, cut at its upper end. -/
+theorem trace_lazy_yields_spec {α β : Type} (rank tyA tyB : String) (ta tb : Bool)
+    (a : Fib Int α) (b : Fib Int β) (ha : Sorted a) (hb : Sorted b) (dfl : β)
+    (srcRank ty : String) (t : Bool) (off : Int) (lo hi : Option Int) :
+    yieldsOf (andSteps rank tyA tyB ta tb 0 0 a b) = andSpec a b ∧
+    yieldsOf (lfSteps rank rank tyA tyB ta dfl b 0 a) = a.map (fun e => (e.1, (e.2, (posLookup b e.1).getD dfl))) ∧
+    yieldsOf (projSteps srcRank ty t off lo hi a) =
+      ((a.takeWhile (fun e => !aboveHi hi (e.1 + off))).filter (fun e => inLo lo (e.1 + off))).map
+        (fun e => (e.1 + off, e.2)) := by
+  refine ⟨?_, lfSteps_yields _ _ _ _ _ _ _ a 0, ?_⟩
+  · rw [andSteps_yields, and_spec a b ha hb]
+  · simp only [projSteps, yieldsOf]
+    exact projLoop_yields srcRank ty t off lo hi a 0
+
+/-- `and_iterator`: every `intersect_i` row carries the coordinate of an element of its operand and
+    the index of that element IN THE SEQUENCE THE OPERAND PRESENTS (its non-empty elements).
+    `_partial`: this is the element's index in the fiber only when no empty element is stored before
+    it (`presentAny_eq_children`); on other operands the code reports the ordinal among non-empty
+    elements — open finding `addr:position-is-ordinal-among-nonempty-elements`. -/
+theorem trace_intersect_addresses_partial {α β : Type} (rank tyA tyB : String) (ta tb : Bool) (hAB : tyA ≠ tyB)
+    (a : Fib Int α) (b : Fib Int β) (r ty : String) (c pos : Int)
+    (h : Step.emit (.use r ty c pos) ∈ andSteps rank tyA tyB ta tb 0 0 a b) :
+    r = rank ∧
+    ((ty = tyA ∧ ∃ (i : Nat) (p : α), pos = (i : Int) ∧ a[i]? = some (c, p)) ∨
+     (ty = tyB ∧ ∃ (i : Nat) (p : β), pos = (i : Int) ∧ b[i]? = some (c, p))) := by
+  obtain ⟨h1, h2⟩ := andSteps_addr rank tyA tyB ta tb hAB 0 0 a b r ty c pos h
+  refine ⟨h1, ?_⟩
+  rcases h2 with ⟨e, i, p, e1, e2⟩ | ⟨e, i, p, e1, e2⟩
+  · exact Or.inl ⟨e, i, p, by simpa using e1, e2⟩
+  · exact Or.inr ⟨e, i, p, by simpa using e1, e2⟩
+
+/-- leader-follower intersection: the leader's rows carry the ordinal among the elements it presents
+    (`_partial` as above); the follower's rows (`getPayload(trace=…)`) carry the probed coordinate and
+    its lower-bound position in the follower AS STORED — the element's index when it is present. -/
+theorem trace_follower_addresses_partial {α β : Type} (rankA rankB tyA tyB : String) (ta : Bool) (dfl : β)
+    (b : Fib Int β) (a : Fib Int α) (r ty : String) (c pos : Int)
+    (h : Step.emit (.use r ty c pos) ∈ lfSteps rankA rankB tyA tyB ta dfl b 0 a) :
+    (r = rankA ∧ ty = tyA ∧ ∃ (i : Nat) (p : α), pos = (i : Int) ∧ a[i]? = some (c, p)) ∨
+    (r = rankB ∧ ty = tyB ∧ pos = ((lowerBound b c : Nat) : Int) ∧ ∃ (i : Nat) (p : α), a[i]? = some (c, p)) := by
+  rcases lfSteps_addr rankA rankB tyA tyB ta dfl b a 0 r ty c pos h with ⟨e1, e2, i, p, e3, e4⟩ | h
+  · exact Or.inl ⟨e1, e2, i, p, by simpa using e3, e4⟩
+  · exact Or.inr h
+
+/-- `project_iterator`: every `project_i` row carries the SOURCE coordinate of an element of the
+    projected fiber whose image lies in the interval, and its ordinal among the presented elements
+    (`_partial` as above). -/
+theorem trace_project_addresses_partial {α : Type} (srcRank ty : String) (t : Bool) (off : Int) (lo hi : Option Int)
+    (a : Fib Int α) (s : Nat) (r ty' : String) (c pos : Int)
+    (h : Step.emit (.useSaved s r ty' c pos) ∈ projSteps srcRank ty t off lo hi a) :
+    r = srcRank ∧ ty' = ty ∧ ∃ (i : Nat) (p : α), pos = (i : Int) ∧ a[i]? = some (c, p) ∧
+      inLo lo (c + off) = true ∧ aboveHi hi (c + off) = false := by
+  simp only [projSteps, List.mem_cons, Step.emit.injEq, reduceCtorEq, false_or] at h
+  obtain ⟨_, e2, e3, i, p, e4, e5, e6⟩ := projLoop_addr srcRank ty t off lo hi a 0 s r ty' c pos h
+  exact ⟨e2, e3, i, p, by simpa using e4, e5, e6⟩
+
+/-- `lshift_iterator`, source side and consumer: `populate_i` and `iter` rows of `z << src` carry an
+    offered coordinate and its index in the sequence the source yields (`_partial`: for a concrete
+    source fiber that sequence is the presented one, see above). -/
+theorem trace_populate_src_addresses_partial {σ π β : Type} (cfg : PopCfg) (mk : π) (rm : Bool → π → Bool)
+    (emptyP : π → Bool) (body : Int → π → β → π × σ) (ok : PopTypesOK cfg)
+    (steps : List (Step β)) (z : Fib Int π) (ty : String) (c pos : Int)
+    (hty : ty = cfg.srcTy ∨ ty = "iter")
+    (hk : ∀ i, Step.emit i ∈ steps → itemKey i ≠ some (cfg.rank, ty))
+    (h : Item.use cfg.rank ty c pos ∈ (popItems cfg mk rm emptyP body { z := z } steps).2) :
+    ∃ (i : Nat) (p : β), pos = (i : Int) ∧ (yieldsOf steps)[i]? = some (c, p) := by
+  obtain ⟨i, p, e1, e2⟩ := popItems_src_addr cfg mk rm emptyP body ok steps { z := z } ty c pos hty hk h
+  exact ⟨i, p, by simpa using e1, e2⟩
+
+-- non-vacuity of the address theorems: a fiber with an explicit default at position 0
+example : (iterItems (σ := PUnit) (S := PUnit) "K" (fun (v : Int) => v == 0) (fun s _ _ => (s, PUnit.unit)) PUnit.unit 0
+    [(1, 0), (3, 4), (5, 6)]).2 =
+    [.use "K" "iter" 3 1, .sub PUnit.unit, .inc, .use "K" "iter" 5 2, .sub PUnit.unit, .inc] := by
+  simp [iterItems]
+
+namespace C16
+/-- Gustavson: `for m,(z_n,a_k) in z_m << a_m: for k,(a,b_n) in a_k & b_k: for n,(z,b) in z_n << b_n: z += a*b` -/
+def exLevels : List Level :=
+  [{ rank := "M", src := .fiber 0, pop := true, insertPos := 9 },
+   { rank := "K", src := .and 0 1, pop := false },
+   { rank := "N", src := .fiber 1, pop := true, insertPos := 9 }]
+def exA : Tree Int Int 2 := (show List (Int × List (Int × Int)) from [(0, [(0, 1), (2, 2)]), (2, [(1, 3), (2, 4), (3, 5)])])
+def exB : Tree Int Int 2 := (show List (Int × List (Int × Int)) from [(0, [(0, 1), (1, 2)]), (2, [(1, 3)]), (3, [(0, 4), (2, 5)])])
+def exEnv : Env := { ops := [⟨2, exA⟩, ⟨2, exB⟩], z := ⟨2, ([] : List (Int × Tree Int Int 1))⟩ }
+end C16
+
+-- non-vacuity: the destination-side write trace of the innermost populate of Gustavson's nest, which
+-- goes through the inserting mode and the move phase (staging positions 9, 10 beyond the shape)
+example := trace_kernel_stamps_sorted (fun _ => true) 0 C16.exLevels C16.exEnv 2
+  { rank := "N", src := .fiber 1, pop := true, insertPos := 9 } ("N", "populate_write_0") rfl
+  (by simp [levelNames])
+  (by
+    intro j lv' hj hne
+    rcases j with _ | _ | _ | j
+    · simp [C16.exLevels] at hj; subst hj; simp [levelNames]
+    · simp [C16.exLevels] at hj; subst hj; simp [levelNames]
+    · exact absurd rfl hne
+    · simp [C16.exLevels] at hj)
+
+#guard ((rowsOf (fun _ => true) 3 (interp (fun _ => true) 0 3 C16.exLevels C16.exEnv).2 ("N", "populate_write_0")).map
+    (fun r => (r.stamp, r.pt, r.pos))) ==
+  [([0, 0, 1], [0, 0, 0], 0), ([0, 0, 3], [0, 0, 1], 1), ([0, 1, 1], [0, 2, 1], 1),
+   ([2, 2, 1], [2, 2, 1], 0), ([2, 3, 1], [2, 3, 0], 9), ([2, 3, 4], [2, 3, 2], 10),
+   ([2, 3, 5], [2, 3, 2], 2), ([2, 3, 6], [2, 3, 1], 1), ([2, 3, 7], [2, 3, 0], 0)]
+
+end Ft
